@@ -27,8 +27,11 @@ impl DuplicateStructFieldId {
                 .filter(|field| field.id().value().parse::<u32>().is_ok()),
             |field| field.id().value(),
             |duplicate, first| {
-                max_id += 1;
-                let free_id = max_id;
+                let free_id = util::next_free_id(&mut max_id, |id| {
+                    fields
+                        .iter()
+                        .any(|field| field.id().value().parse() == Ok(id))
+                });
                 validate.add_error(Self {
                     schema_name: validate.schema_name().to_owned(),
                     duplicate: duplicate.id().clone(),
